@@ -3,7 +3,6 @@
    Also: the pager's next page id never decreases. *)
 From Coq Require Import Lia ZifyBool ZifyN ZifyNat.
 From NDB Require Import Base.Bytes Base.Bytes_proofs BTree.BTree BTree.Spec BTree.Leaf_proofs.
-Set Default Timeout 30.
 
 (* ---------- next page id is monotone ---------- *)
 Definition ins_next (r : ins_res) : N :=
